@@ -38,40 +38,36 @@ def check_gate_body(ctx, b, kind):
     rv = b.return_values()
     key = b.path.split('::')[-1]
     if kind == 'xyz':
-        ok = False
-        found = None
-        if len(rv) == 1:
-            t = strip(rv[0][0])
-            found = show(t, maxdepth=6)
-            if isinstance(t, tuple) and t[0] == 'bin' and t[1] == 'Le' and util.is_param(t[3], 3):
-                d = strip(t[2])
-                ok = _is_norm_of_diff(d, 1, 2, ('vector',))
-        ctx.check(ok, 'R01.3', key, b.where(0), b.path, 'the position gate must be norm(a - b) <= tolerance on its two arguments', found=found, detail=found or '')
+        paths = util.true_conditions(b)
+        ok = len(paths) >= 1 and None not in paths
+        for conds in paths if ok else []:
+            ok = ok and any(kd == 'le' and util.is_param(rhs, 3) and _is_norm_of_diff(strip(lhs), 1, 2, ('vector',)) for kd, lhs, rhs in conds)
+        ctx.check(ok, 'R01.3', key, b.where(0), b.path, 'the position gate must be norm(a - b) <= tolerance on its two arguments',
+                  found=[show(x[0], maxdepth=5) for x in rv], detail='norm(a - b) <= tol')
         return
-    trues = [(t, d) for t, d, rb in rv if util.const_val(strip(t)) in (1, True)]
-    falses = [(t, d) for t, d, rb in rv if util.const_val(strip(t)) in (0, False)]
-    other = [t for t, d, rb in rv if util.const_val(strip(t)) not in (0, 1, True, False)]
-    ok = len(trues) == 1 and not other
-    msg = ''
+    paths = util.true_conditions(b)
+    ok = len(paths) >= 1 and None not in paths
+    msg = 'no analysable path returns true'
     if ok:
-        t, d = trues[0]
-        gs = [(strip(g), opw.truth(k)) for g, k, sw in b.guard_terms(d[1])]
-        dist = ang = False
-        for g, v in gs:
-            if isinstance(g, tuple) and g[0] == 'bin' and g[1] == 'Gt' and v is False:
-                lhs = strip(g[2])
+        msg = ''
+        for conds in paths:
+            dist = ang = False
+            for kind, lhs, rhs in conds:
+                if kind != 'le':
+                    continue
+                lhs = strip(lhs)
                 while isinstance(lhs, tuple) and lhs[0] == 'call' and cname(lhs[1]) == 'f64::abs':
                     lhs = strip(lhs[2])
-                if util.is_param(g[3], 3) and _is_norm_of_diff(lhs, 1, 2, ('translation', 'vector')):
+                if util.is_param(rhs, 3) and _is_norm_of_diff(lhs, 1, 2, ('translation', 'vector')):
                     dist = True
-                if util.is_param(g[3], 4) and isinstance(lhs, tuple) and lhs[0] == 'call' and cname(lhs[1]).endswith('::angle_to'):
+                if util.is_param(rhs, 4) and isinstance(lhs, tuple) and lhs[0] == 'call' and cname(lhs[1]).endswith('::angle_to'):
                     a, c = strip(lhs[2]), strip(lhs[3])
                     if _is_fld_of_param(a, 'rotation') and _is_fld_of_param(c, 'rotation') and {_param_root(a), _param_root(c)} == {1, 2}:
                         ang = True
-        ok = dist and ang
-        msg = 'distance clause=%s angular clause=%s' % (dist, ang)
+            ok = ok and dist and ang
+            msg = 'distance clause=%s angular clause=%s' % (dist, ang)
     ctx.check(ok, 'R01.3', key, b.where(0), b.path,
-              'the pose gate must return true only when neither |translation distance| > tol_d nor |angle_to| > tol_a holds for its two arguments: ' + msg, detail=msg)
+              'the pose gate must return true only when |translation distance| <= tol_d and |angle_to| <= tol_a hold for its two arguments: ' + msg, detail=msg)
 
 
 def _param_root(t):
